@@ -43,5 +43,7 @@ Shapes ==
    text : 0..6, stlpos : 0..1, tsmap : 0..1]
 
 \* the normative statement, evaluated on every recorded call
-Total(res) == res \in {"ok", "err"}
+\* "demuxer-crash": the third-party transport-stream demultiplexer itself panicked; the statement excludes
+\* those streams ("every stream that the demultiplexer gets through without itself crashing")
+Total(res) == res \in {"ok", "err", "demuxer-crash"}
 =============================================================================
